@@ -861,6 +861,8 @@ def _int(x=0, *a):
         return SymInt(z3.If(x.e, z3.BitVecVal(1, W), z3.BitVecVal(0, W)))
     if isinstance(x, SymQuot):
         return x.to_int()
+    if hasattr(x, "__symint__"):
+        return x.__symint__()
     if isinstance(x, Sym):
         raise Unsupported("int(%s)" % type(x).__name__)
     return builtins.int(x, *a)
@@ -970,8 +972,43 @@ def _np_isnan(x):
     return SymBool(z3.fpIsNaN(x.e))
 
 
+def _np_isposinf(x):
+    return SymBool(z3.And(z3.fpIsInf(x.e), z3.fpIsPositive(x.e)))
+
+
+def _np_isneginf(x):
+    return SymBool(z3.And(z3.fpIsInf(x.e), z3.fpIsNegative(x.e)))
+
+
 def _np_signbit(x):
     return SymBool(z3.fpIsNegative(x.e) if False else z3.Extract(sum(x.fmt) - 1, sum(x.fmt) - 1, z3.fpToIEEEBV(x.e)) == 1)
+
+
+def fp_bits(e):
+    """the bit pattern of an FP term; for a float assembled from a pattern, that pattern (keeps constants foldable)"""
+    if z3.is_app(e) and e.decl().kind() == z3.Z3_OP_FPA_TO_FP and e.num_args() == 1 and z3.is_bv(e.arg(0)):
+        return e.arg(0)
+    return z3.fpToIEEEBV(e)
+
+
+def frexp_mantissa(x):
+    """numpy.frexp(x)[0]: x scaled into [0.5, 1) (same sign and significand); zero, inf, nan unchanged"""
+    eb, sb = x.fmt
+    n = eb + sb
+    bits = fp_bits(x.e)
+    sign = z3.Extract(n - 1, n - 1, bits)
+    ef = z3.Extract(n - 2, sb - 1, bits)
+    fr = z3.Extract(sb - 2, 0, bits)
+    bias = (1 << (eb - 1)) - 1
+    half = z3.BitVecVal(bias - 1, eb)
+    normal = z3.Concat(sign, half, fr)
+    # subnormal: shift the leading one out of the fraction field
+    sub = z3.Concat(sign, half, fr)
+    for i in range(sb - 1):  # leading one at bit i: shift left by (sb - 1 - i)
+        sub = z3.If(z3.Extract(i, i, fr) == 1, z3.Concat(sign, half, fr << (sb - 1 - i)), sub)
+    special = z3.Or(ef == (1 << eb) - 1, z3.And(ef == 0, fr == 0))
+    m = z3.If(special, bits, z3.If(ef == 0, sub, normal))
+    return SymFP(z3.fpBVToFP(z3.simplify(m), z3.FPSort(eb, sb)), x.t)
 
 
 def frexp_exponent(x):
@@ -979,7 +1016,7 @@ def frexp_exponent(x):
     zero, inf, nan -> 0 (what numpy returns)."""
     W = eng().W
     eb, sb = x.fmt
-    bits = z3.fpToIEEEBV(x.e)
+    bits = fp_bits(x.e)
     ef = z3.Extract(eb + sb - 2, sb - 1, bits)
     fr = z3.Extract(sb - 2, 0, bits)
     bias = (1 << (eb - 1)) - 1
@@ -990,8 +1027,11 @@ def frexp_exponent(x):
         bl = z3.If(z3.Extract(i, i, fr) == 1, z3.BitVecVal(i + 1, W), bl)
     normal_e = efi - z3.BitVecVal(bias - 1, W)
     sub_e = bl + z3.BitVecVal((1 - bias) - (sb - 1), W)
-    special = z3.Or(z3.fpIsZero(x.e), z3.fpIsInf(x.e), z3.fpIsNaN(x.e))
-    return SymInt(z3.If(special, z3.BitVecVal(0, W), z3.If(ef == 0, sub_e, normal_e)))
+    special = z3.Or(ef == (1 << eb) - 1, z3.And(ef == 0, fr == 0))
+    r = z3.simplify(z3.If(special, z3.BitVecVal(0, W), z3.If(ef == 0, sub_e, normal_e)))
+    if z3.is_bv_value(r):
+        return r.as_signed_long()  # constant folding (the exponent field of the operand is concrete)
+    return SymInt(r)
 
 
 class _FrexpResult:
@@ -1004,7 +1044,7 @@ class _FrexpResult:
         raise Unsupported("frexp mantissa")
 
     def __iter__(self):
-        raise Unsupported("frexp unpacking")
+        return iter((frexp_mantissa(self.x), frexp_exponent(self.x)))
 
 
 def _np_frexp(x):
@@ -1146,6 +1186,8 @@ _NP_MODELS = {
     "isfinite": _np_isfinite,
     "isinf": _np_isinf,
     "isnan": _np_isnan,
+    "isposinf": _np_isposinf,
+    "isneginf": _np_isneginf,
     "signbit": _np_signbit,
     "frexp": _np_frexp,
     "ldexp": _np_ldexp,
